@@ -1,35 +1,8 @@
 /-
-`oracle`: the executable side of the models.  Reads cases from stdin
-(`@ Cxx <kind> args…` header line, then one operation per line), prints exactly one
-output line per input line.  Core-only imports (no Mathlib) so it links.
+`oracle`: all models in one executable (kept for manual use; the checks use the
+per-property executables `oracle_Cxx`, see Oracle/Driver.lean).
 -/
+import Oracle.Driver
 import Oracle.Registry
 
-open Golib.Proto
-
-def runCase (lines : Array String) : List String :=
-  match lines.toList with
-  | [] => []
-  | h :: ops =>
-    match toks h with
-    | "@" :: id :: hdr =>
-      match registry.lookup id with
-      | some f => f hdr ops
-      | none => "bad-op" :: ops.map fun _ => "bad-op"
-    | _ => "bad-op" :: ops.map fun _ => "bad-op"
-
-partial def loop (h : IO.FS.Stream) (out : IO.FS.Stream) (cur : Array String) : IO Unit := do
-  let line ← h.getLine
-  if line.isEmpty then
-    for o in runCase cur do out.putStrLn o
-    out.flush
-    return ()
-  let l := (line.dropEndWhile (· == '\n')).toString
-  if l.startsWith "@" then
-    for o in runCase cur do out.putStrLn o
-    loop h out #[l]
-  else
-    loop h out (cur.push l)
-
-def main : IO Unit := do
-  loop (← IO.getStdin) (← IO.getStdout) #[]
+def main : IO Unit := Oracle.mainWith registry
